@@ -159,6 +159,18 @@ def check_one(case, res):
 
 def run_case(case):
     res = core.Result(evals=0)
+    if "years_sequence" in case:
+        # load years handled one after the other in one process (a study over weather years): each is checked like a single year
+        base = {k: v for k, v in case.items() if k != "years_sequence"}
+        for k, y in enumerate(case["years_sequence"]):
+            before = len(res["violations"])
+            check_one(dict(base, year=y), res)
+            for vv in res["violations"][before:]:
+                vv["case"] = dict(case, years_sequence=case["years_sequence"][:k + 1], horizons=vv["case"].get("horizons", case["horizons"]))
+                vv["attrs"]["after_other_years"] = k > 0
+        res.outcome("year_sequences")
+        res["sample"] = dict(case)
+        return res
     if "profile" in case:
         check_one(case, res)
         return res
@@ -203,7 +215,17 @@ def main(run: core.Run, only=None):
     # a leap load year (366 days, 8784 hourly values) given to HybridLoad directly
     ly = [{"profile": "patterns", "patterns": [A[pi]] * 12, "params": params[0], "horizons": [12, 25], "year": 2020} for pi in ((8, 38, 70, 100, 130, 160) if quick else range(1, nA, 7))]
     ly.append({"profile": "office", "params": params[1], "horizons": [12, 37], "year": 2024})
+    ly += [{"profile": "patterns", "patterns": [A[pi]] * 12, "params": params[0], "horizons": [12, 25], "years_sequence": seq} for pi in (38, 130) for seq in ([2019, 2020, 2019], [2024, 2019])]
     run.drive(ly, family="leap-year")
+    # peaks in the first and in the last hour of a day (night-time charging, late-evening peaks)
+    ph = []
+    for hod in (23, 0):
+        for d in ("first", "mid", "last"):
+            for shape in ("1h", "6h") if not quick or d != "mid" else ("1h",):
+                ph.append({"dir": "c", "cday": d, "shape": shape, "base": 0.2, "pc": 6.0, "ph": 5.0, "ch": hod})
+                ph.append({"dir": "h", "hday": d, "shape": shape, "base": 0.2, "pc": 6.0, "ph": 5.0, "hh": hod})
+                ph.append({"dir": "both", "cday": d, "hday": "second" if d != "mid" else "penult", "shape": shape, "base": 0.0, "pc": 6.0, "ph": 5.0, "ch": hod, "hh": 23 - hod})
+    run.drive([{"profile": "patterns", "patterns": [p] * 12, "params": params[0], "horizons": [12, 25]} for p in ph], family="peak-in-first-or-last-hour-of-a-day")
     misc = [{"profile": k, "params": p, "horizons": [12, 37]} for p in params[:3] for k in ("office", "mirror")]
     misc += [{"profile": "const", "value": val, "params": params[0], "horizons": [12, 37]} for val in (5000.0, -5000.0, 0.0)]
     run.drive(misc, family="misc")
